@@ -421,10 +421,14 @@ func fnHello(ctx *cmdContext, args map[string]any) (output respValue, err error)
 				output.data = respErrorString("NOPROTO unsupported protocol version")
 				return
 			}
+			ctx.cs.mu.Lock()
 			ctx.cs.respVersion = int(ver)
+			ctx.cs.mu.Unlock()
 		}
 		if name, hasName := helloArgs.mustGet("clientname").(string); hasName {
+			ctx.cs.mu.Lock()
 			ctx.cs.name = name
+			ctx.cs.mu.Unlock()
 		}
 	}
 
